@@ -10,6 +10,11 @@ single-pass reference result computed in the interpreter's main thread:
           scheduler (mc/sched.py): every interleaving with <= k preemptions at line granularity
           inside the engine functions that touch shared state, pool sizes 1..3, own / shared broker
   seed    the same fixed cases in child interpreters under real PYTHONHASHSEED values
+  history (one process, fresh components per case) a first split / evaluation of the graph, then the dependency relation
+          is changed through the public registry API without changing the key set (dr.add_dependency between two
+          components of different sub-graphs, optionally dr.set_enabled), then every serial driver under forced hashes
+          and both key orders, the partition of get_subgraphs, and the pooled driver under the scheduler - all compared
+          with the single pass over components that got the same registry changes but were never evaluated before
 """
 import itertools
 import json
@@ -30,7 +35,12 @@ LEVEL_TEXT = ("For disjoint unions of 2-3 connected sub-graphs (<= 5 nodes quick
               "invocation counts are shown identical for every linear extension, every engine tie-break in the single-pass / incremental "
               "drivers, every get_subgraphs partition (no loss, no duplicate, dependency-closed), every pooled interleaving with <= 1 preemption "
               "(thorough: <= 2 for the three smallest families) for pool sizes 1-3 with own or shared broker, the evaluator's pooled "
-              "driver, and real hash seeds 0..15 / 0..63.")
+              "driver, and real hash seeds 0..15 / 0..63. Histories in one process (6 quick / 9 thorough families of 2-3 sub-graphs, "
+              "<= 4 nodes, plain at-least-one consumers and registry points): after a first step in {nothing, get_subgraphs, run, "
+              "run_incremental, run_all} and every single (thorough: every acyclic pair incl. set_enabled) dr.add_dependency between "
+              "components of different sub-graphs, all three serial drivers (forced hashes: all, quick 4-node families identity/reversed; both "
+              "key orders) and the pooled driver (<= 1 preemption) give the history-free single-pass result, and get_subgraphs "
+              "partitions the CURRENT graph (no loss, no duplicate, closed under the current dependencies).")
 LEVEL_NOTE = ("Scheduling points are Python line events in the engine functions of dr.py / plugins.py / evaluators.py that touch per-run state, "
               "every BYTECODE of the Broker methods / get_missing_dependencies / is_enabled (the accessors of shared state, where CPython can "
               "switch threads inside one source line), plus harness body / observer events; code between two points is atomic (GIL). Read-only registry helpers are not points; the registries are "
@@ -38,12 +48,22 @@ LEVEL_NOTE = ("Scheduling points are Python line events in the engine functions 
               "the forced-hash enumeration is what covers 'every order'.")
 RULE = ("graph family x deviations x schedule dimension; states = distinct (case, schedule-prefix) nodes visited, transitions = scheduling "
         "choices / component turns executed, traces = complete executions of the real engine; non-trivial = the case has >= 2 sub-graphs or "
-        ">= 2 independent components AND >= 2 distinct schedules were actually executed for it")
+        ">= 2 independent components AND >= 2 distinct schedules were actually executed for it; history part: history family x first "
+        "step x registry change set x deviations, each (driver, forced hash, key order) executed from fresh components")
 ASSUMPTIONS = ["GIL: no interleaving inside one bytecode line", "deterministic component bodies",
                "scheduler granularity and preemption bound as stated"]
-BOUNDS = {"quick": {"max_nodes": 5, "max_dev": 1, "preemptions": 1, "pool_sizes": [1, 2, 3], "seeds": 16},
+BOUNDS = {"quick": {"max_nodes": 5, "max_dev": 1, "preemptions": 1, "pool_sizes": [1, 2, 3], "seeds": 16,
+                    "history": {"families": 6, "first_steps": 5, "registry_changes": 1, "max_dev": 1, "forced_hashes": "all for 3 nodes; identity, reversed for 4",
+                                "pooled": "3 families, first step get_subgraphs, pool size 2, shared broker, all values or the first "
+                                          "component of the dependent's old sub-graph skipped, <= 1 preemption (3-node families; one task "
+                                          "after the change) / 0 preemptions (any|one|one: two tasks, every non-preemptive order)"}},
           "thorough": {"max_nodes": 6, "max_dev": 2, "preemptions": "1 everywhere; 2 for [one,one], [chain2,one], [join,one] at pool size 2",
-                       "pool_sizes": [1, 2, 3], "seeds": 64}}
+                       "pool_sizes": [1, 2, 3], "seeds": 64,
+                       "history": {"families": 9, "first_steps": 5, "registry_changes": 2, "max_dev": "2 with one registry change, 1 with two",
+                                   "forced_hashes": "all with one registry change; identity, reversed with two",
+                                   "pooled": "9 families, first step get_subgraphs / run_all, pool sizes 1-3, own and shared broker, "
+                                             "1 registry change, all values or the first component of the dependent's old sub-graph "
+                                             "skipped / failing, <= 1 preemption"}}}
 CAP_S = {"quick": 200, "thorough": 7200}
 
 # connected sub-graph shapes over local indices
@@ -144,6 +164,7 @@ def units(tier, seed):
             for shared in (False, True):
                 us.append({"part": "pool", "family": f, "t": "datasource", "ctx": ctx, "size": 2, "shared": shared})
     us = _expand_pool_units(us, tier)
+    us.extend(history_units(tier))
     for k, nodes in enumerate(evaluator_cases()):
         if tier == "quick" and len(nodes) > 4:
             continue            # three sub-graphs cost ~2 000 schedules per case: thorough only
@@ -193,6 +214,10 @@ def _expand_pool_units(us, tier):
 def unit_weight(u):
     if u["part"] == "pool":
         return (1000 if u.get("bound") == 2 else 10) + sum(len(SUB[c]) for c in u["family"])
+    if u["part"] == "history-pool":
+        return 10 + len(HIST_FAMILIES[u["family"]][0])
+    if u["part"] == "history":
+        return 2000         # a fraction of a second each: run first, so a wall-clock cap on a loaded machine never drops the dimension
     return 1
 
 
@@ -275,10 +300,227 @@ def reference(case):
     g = G.Graph({"nodes": case["nodes"]}, name_tag="g")
     try:
         b = make_broker(g, case)
+        # a history case: the registry changes of the history are made on fresh components, with NO evaluation before them
+        apply_mutations(g, (case.get("history") or {}).get("mut") or [])
         dr.run(eval_graph(g, case), b)
         return canon_broker(g, [b]), invocations(g)
     finally:
         g.cleanup()
+
+
+# ---- dimension 5: histories in one process ----------------------------------------------------------
+#
+# The statement quantifies over graphs and schedules, not over what the process did before: an evaluation must give
+# the single-pass result of the graph AS IT IS NOW, whatever was split / evaluated earlier in the same interpreter.
+# A history = (first step on the graph) ; (registry changes through the public API: dr.add_dependency between two
+# existing components of different sub-graphs - what loading a further SpecSet sub-class does -, dr.set_enabled) ;
+# (evaluation of the same key set by every driver).  Reference: single pass over fresh components that received the
+# same registry changes and were never split or evaluated before.
+
+def _hl(t="plain"):
+    return {"t": t, "decl": [], "out": "value"}
+
+
+def _hany(*grp):
+    return {"t": "plain", "decl": [list(grp)], "out": "value"}       # one at-least-one group: what add_dependency extends
+
+
+def _hreq(i):
+    return {"t": "plain", "decl": [i], "out": "value"}
+
+
+def _hrp(*impl):
+    return {"t": "rp", "impl": list(impl)}
+
+
+# name -> (nodes in topological index order, sub-graph number of every node)
+HIST_FAMILIES = {
+    "any|one": ([_hl(), _hany(0), _hl()], [0, 0, 1]),
+    "one|any": ([_hl(), _hl(), _hany(1)], [0, 1, 1]),
+    "rp|ds": ([_hl("datasource"), _hrp(0), _hl("datasource")], [0, 0, 1]),
+    "ds|rp": ([_hl("datasource"), _hl("datasource"), _hrp(1)], [0, 1, 1]),
+    "any|chain2": ([_hl(), _hany(0), _hl(), _hreq(2)], [0, 0, 1, 1]),
+    "any|any": ([_hl(), _hany(0), _hl(), _hany(2)], [0, 0, 1, 1]),
+    "rp|rp": ([_hl("datasource"), _hrp(0), _hl("datasource"), _hrp(2)], [0, 0, 1, 1]),
+    "any|one|one": ([_hl(), _hany(0), _hl(), _hl()], [0, 0, 1, 2]),
+    "chain-any|one": ([_hl(), _hany(0), _hreq(1), _hl()], [0, 0, 0, 1]),
+}
+HIST_QUICK = ["any|one", "one|any", "rp|ds", "ds|rp", "any|chain2", "any|one|one"]
+HIST_FIRST = ["none", "split", "run", "incremental", "run_all"]
+
+
+def _has_group(nd):
+    return nd["t"] == "rp" or any(isinstance(it, list) for it in nd.get("decl", []))
+
+
+def _model_deps(nodes, muts):
+    from harness import graphs as G
+    deps = [set(G.all_deps(nd)) for nd in nodes]
+    for m in muts:
+        if m[0] == "adddep":
+            deps[m[1]].add(m[2])
+    return deps
+
+
+def _acyclic(deps):
+    left = dict((i, set(d)) for i, d in enumerate(deps))
+    while left:
+        free = [i for i, d in left.items() if not d]
+        if not free:
+            return False
+        for i in free:
+            del left[i]
+        for d in left.values():
+            d.difference_update(free)
+    return True
+
+
+def hist_mutations(name, max_mut):
+    """Every set of <= max_mut registry changes: a dependency added between two components of DIFFERENT sub-graphs
+    (the dependent has an at-least-one group / is a registry point), or one component disabled; the dependency
+    relation stays acyclic."""
+    nodes, member = HIST_FAMILIES[name]
+    n = len(nodes)
+    atoms = [["adddep", i, j] for i in range(n) for j in range(n)
+             if _has_group(nodes[i]) and member[i] != member[j]]
+    atoms += [["disable", i] for i in range(n) if nodes[i]["t"] != "rp"]
+    out = []
+    for k in range(1, max_mut + 1):
+        for combo in itertools.combinations(atoms, k):
+            if sum(1 for m in combo if m[0] == "adddep") == 0:
+                continue            # the history dimension is about the dependency relation changing under a known key set
+            if _acyclic(_model_deps(nodes, combo)):
+                out.append([list(m) for m in combo])
+    return out
+
+
+def apply_mutations(g, muts):
+    from insights.core import dr
+    for m in muts:
+        if m[0] == "adddep":
+            dr.add_dependency(g.nodes[m[1]], g.nodes[m[2]])
+        elif m[0] == "disable":
+            dr.set_enabled(g.nodes[m[1]], False)
+        else:
+            raise ValueError(m)
+
+
+def _keyed(graph, korder):
+    return dict(reversed(list(graph.items()))) if korder else graph
+
+
+def first_step(g, case, kind, korder=0):
+    """What the process did with the graph before the registry changed (fresh brokers; the log is cleared afterwards)."""
+    from insights.core import dr
+    if kind != "none":
+        graph = _keyed(eval_graph(g, case), korder)
+        if kind == "split":
+            list(dr.get_subgraphs(graph))
+        elif kind == "run":
+            dr.run(graph, make_broker(g, case))
+        elif kind == "incremental":
+            list(dr.run_incremental(graph, make_broker(g, case)))
+        elif kind == "run_all":
+            dr.run_all(graph, make_broker(g, case), None)
+        else:
+            raise ValueError(kind)
+    del g.log[:]
+    del g.raised[:]
+
+
+def play_history(g, case, korder=0):
+    hist = case.get("history")
+    if hist:
+        first_step(g, case, hist["first"], korder)
+        apply_mutations(g, hist["mut"])
+
+
+def hist_perms(n, which):
+    if which == "all":
+        return [list(p) for p in itertools.permutations(range(n))]
+    return [list(range(n)), list(range(n - 1, -1, -1))]
+
+
+def check_history(case, res=None):
+    """first step ; registry changes ; then every serial driver under forced hashes and both key orders of the graph
+    dict: result == history-free single pass, and the partition of get_subgraphs is one of the CURRENT graph."""
+    from insights.core import dr
+    from harness import graphs as G
+    nodes = case["nodes"]
+    n = len(nodes)
+    hist = case["history"]
+    ref, ref_inv = reference(case)
+    deps = _model_deps(nodes, hist["mut"])
+    vio = []
+    outcomes = set()
+    prefixes = set()
+    nexec = 0
+    only = case.get("schedule")
+    combos = [(only[1], only[2], only[3])] if only else [(drv, perm, ko) for perm in hist_perms(n, case.get("perms", "ends"))
+                                                          for ko in (0, 1) for drv in ("run", "incremental", "run_all", "subgraphs")]
+    for drv, perm, ko in combos:
+        g = G.Graph({"nodes": nodes}, hashes=perm, name_tag="g")
+        try:
+            play_history(g, case, ko)
+            graph = _keyed(eval_graph(g, case), ko)
+            sched = ["hist", drv, list(perm), ko]
+            if drv == "subgraphs":
+                subs = [[g.index(c) for c in s] for s in dr.get_subgraphs(graph)]
+                nexec += 1
+                prefixes.add(("p", ko) + tuple(perm))
+                flat = sorted(i for s in subs for i in s)
+                if flat != list(range(n)):
+                    vio.append(("history:partition-no-loss-no-duplicate", list(range(n)), {"subgraphs": subs}, sched))
+                for s in subs:
+                    for i in s:
+                        for d in deps[i]:
+                            if d not in s and len(vio) < 6:
+                                vio.append(("history:partition-sub-graph-closed-under-current-dependencies",
+                                            {"node": i, "dep_in_same_subgraph": d}, {"subgraphs": [sorted(t) for t in subs]}, sched))
+                continue
+            b = make_broker(g, case)
+            if drv == "run":
+                brokers = [dr.run(graph, b)]
+            elif drv == "incremental":
+                brokers = list(dr.run_incremental(graph, b))
+            else:
+                brokers = dr.run_all(graph, b, None)
+            got, inv = canon_broker(g, brokers), invocations(g)
+            turns = tuple(ev[1] for ev in g.log if ev[0] == "turn")
+        finally:
+            g.cleanup()
+        nexec += 1
+        for k in range(1, len(turns) + 1):
+            prefixes.add(("h", drv, ko) + turns[:k])
+        outcomes.add(json.dumps(got, sort_keys=True))
+        if (got != ref or inv != ref_inv) and len(vio) < 6:
+            vio.append(("history:earlier-evaluation-changes-result", {"result": ref, "invocations": ref_inv},
+                        {"result": got, "invocations": inv}, sched))
+    if res is not None:
+        res.traces += nexec
+        res.states += len(prefixes)
+        res.transitions += nexec * n
+        res.outcomes.add("href:values=%d:failures=%d:missing=%d" % (len(ref["instances"]), len(ref["exceptions"]), len(ref["missing"])))
+    return vio, nexec, len(outcomes)
+
+
+def history_units(tier):
+    quick = tier == "quick"
+    us = []
+    for name in (HIST_QUICK if quick else sorted(HIST_FAMILIES)):
+        for first in HIST_FIRST:
+            us.append({"part": "history", "family": name, "first": first})
+    # pooled evaluation after a history: preemption bound 1 (quick: two families, the dependent's old sub-graph
+    # dispatched first / last; thorough: every family, pool sizes 1-3, own and shared broker)
+    for name in (["any|one", "one|any", "any|one|one"] if quick else sorted(HIST_FAMILIES)):
+        for first in (["split"] if quick else ["split", "run_all"]):
+            for size in ([2] if quick else [1, 2, 3]):
+                for shared in ([True] if quick else [False, True]):
+                    # quick: the family that still has two sub-graphs after the change without preemptions (every
+                    # dispatch / completion order of the tasks), the others (one task) with <= 1 preemption
+                    us.append({"part": "history-pool", "family": name, "first": first, "size": size, "shared": shared,
+                               "bound": 0 if quick and len(HIST_FAMILIES[name][0]) > 3 else 1})
+    return us
 
 
 # ---- dimension 1 + 2 -------------------------------------------------------------------------------
@@ -447,6 +689,7 @@ def run_pool_once(case, prefix):
     from mc import sched as S
     g = G.Graph({"nodes": case["nodes"]}, name_tag="g")
     try:
+        play_history(g, case)       # (history cases) serially in the calling thread, before anything is scheduled
         s = S.Scheduler(prefix, target_codes(), pool_size=case["size"], max_points=20000, opcode_codes=opcode_codes())
         g.hook = lambda ev: s.point(ev[:2])
         b = make_broker(g, case) if case["shared"] else None
@@ -806,6 +1049,50 @@ def run_unit(unit, tier):
                           {"ctx": unit.get("ctx"), "t": unit["t"],
                            "signal_in_worker_thread": "signal only works in main thread" in json.dumps(v[2])})
         return res
+    if part in ("history", "history-pool"):
+        quick = tier == "quick"
+        base, member = HIST_FAMILIES[unit["family"]]
+        n = len(base)
+        sites = [i for i, nd in enumerate(base) if nd["t"] != "rp"]
+        pooled = part == "history-pool"
+        alts = ["skip"] if quick and pooled else ["skip", "error"]
+        for muts in hist_mutations(unit["family"], 1 if quick or pooled else 2):
+            # thorough: <= 2 deviations with one registry change, <= 1 with two
+            maxdev = 1 if quick or pooled or len(muts) > 1 else 2
+            for devs in enumx.deviations(["value"] * len(sites), [alts] * len(sites), maxdev):
+                deviating = [i for i, d in zip(sites, devs) if d != "value"]
+                if pooled and deviating and deviating != [member.index(member[muts[0][1]])]:
+                    continue        # pooled: all values, or the first component of the dependent's old sub-graph deviates
+                nodes = [dict(nd) for nd in base]
+                for i, d in zip(sites, devs):
+                    if d != "value":
+                        nodes[i]["out"] = d
+                hist = {"first": unit["first"], "mut": muts}
+                if pooled:
+                    case = {"kind": "pool", "family": ["history", unit["family"]], "nodes": nodes, "size": unit["size"],
+                            "shared": unit["shared"], "history": hist}
+                else:
+                    case = {"kind": "history", "family": ["history", unit["family"]], "nodes": nodes, "history": hist,
+                            "perms": "ends" if (quick and n > 3) or len(muts) > 1 else "all"}
+                try:
+                    if pooled:
+                        vio, nexec, nout, ex = check_pool(case, unit["bound"], res, max_executions=3000 if quick else 400000)
+                        res.stat("history_pool_schedules_executed", nexec)
+                    else:
+                        vio, nexec, nout = check_history(case, res)
+                        res.stat("history_executions", nexec)
+                except Exception:
+                    import traceback
+                    vio, nexec, nout = [("harness:raises", "no exception", traceback.format_exc()[-900:], None)], 0, 0
+                res.case(nontrivial=nexec >= 2, outcome="%s:%s:%d" % (part, unit["first"], nout),
+                         sample=case if res.evals % 11 == 1 else None)
+                res.stat("histories", 1)
+                for v in vio:
+                    c = dict(case)
+                    c["schedule"] = v[3]
+                    res.violation(v[0], c, v[1], v[2], {"ctx": None, "t": "history", "first": unit["first"],
+                                                        "signal_in_worker_thread": False})
+        return res
     if part == "evaluator":
         nodes = evaluator_cases()[unit["index"]]
         case = {"kind": "evaluator", "nodes": nodes, "size": unit["size"]}
@@ -854,11 +1141,17 @@ def replay(case):
         vio, _, _ = check_order_hash(case)
         feats = {"ctx": case.get("ctx"), "t": "typed" if case["family"][0] == "typed" else case["nodes"][0]["t"]}
         return [{"clause": v[0], "case": case, "expected": v[1], "observed": v[2], "features": feats} for v in vio]
+    if kind == "history":
+        vio, _, _ = check_history(case)
+        return [{"clause": v[0], "case": case, "expected": v[1], "observed": v[2],
+                 "features": {"ctx": None, "t": "history", "first": case["history"]["first"], "signal_in_worker_thread": False}}
+                for v in vio]
     if kind == "pool":
         vio, _, _, _ = check_pool(case, 0)
         return [{"clause": v[0], "case": case, "expected": v[1], "observed": v[2],
-                 "features": {"ctx": case.get("ctx"), "t": case["nodes"][0]["t"],
-                              "signal_in_worker_thread": "signal only works in main thread" in json.dumps(v[2])}} for v in vio]
+                 "features": dict({"ctx": case.get("ctx"), "t": "history" if case.get("history") else case["nodes"][0]["t"],
+                                   "signal_in_worker_thread": "signal only works in main thread" in json.dumps(v[2])},
+                                  **({"first": case["history"]["first"]} if case.get("history") else {}))} for v in vio]
     if kind == "evaluator":
         vio, _, _, _ = check_evaluator(case, 0)
         return [{"clause": v[0], "case": case, "expected": v[1], "observed": v[2], "features": {}} for v in vio]
